@@ -6,6 +6,7 @@ package node_manager
 
 import (
 	"bytes"
+	"encoding/hex"
 
 	"github.com/polynetwork/poly/common"
 	"github.com/polynetwork/poly/zzsym"
@@ -15,6 +16,19 @@ func zzC04Addr(tag string) common.Address {
 	var a common.Address
 	copy(a[:], zzsym.Bytes(tag, common.ADDR_LEN))
 	return a
+}
+
+// zzC04ToHex replaces (*common.Address).ToHexString (fmt.Sprintf("%x", reversed bytes)) under the engine, where
+// Sprintf cannot format symbolic bytes: lower-case hex of the reversed address, computed arithmetically.
+// ZZ_C04_NM_HexModel checks it against the real function on concrete addresses.
+func zzC04ToHex(self *common.Address) string {
+	out := make([]byte, 0, 2*common.ADDR_LEN)
+	for i := common.ADDR_LEN - 1; i >= 0; i-- {
+		hi, lo := self[i]>>4, self[i]&15
+		// digit d -> '0'+d for d<10, 'a'+d-10 otherwise; (d+6)>>4 is 1 exactly when d >= 10
+		out = append(out, '0'+hi+39*((hi+6)>>4), '0'+lo+39*((lo+6)>>4))
+	}
+	return string(out)
 }
 
 func zzC04Str(tag string, L int) string { return string(zzsym.BytesChoose(tag, L)) }
@@ -184,6 +198,19 @@ func ZZ_C04_NM_RoundTrip_witness() {
 	}
 }
 
+// ZZ_C04_NM_HexModel: the arithmetic hex model equals the real ToHexString (run without the override is not
+// possible inside one spec, so the reference is spelled out with encoding/hex on the reversed bytes).
+func ZZ_C04_NM_HexModel() {
+	for _, seed := range []byte{0x00, 0x09, 0x0a, 0x0f, 0x10, 0x9a, 0xa9, 0xff, 0x5c} {
+		var a common.Address
+		for i := range a {
+			a[i] = seed + byte(i)*0x1d
+		}
+		zzsym.Assert(zzC04ToHex(&a) == hex.EncodeToString(common.ToArrayReverse(a[:])), "hex model agrees with encoding/hex on the reversed address")
+	}
+	zzsym.Cover("hex-model")
+}
+
 // ZZ_C04_NM_MapOrder: run under all_map_orders. The same map value is encoded twice; every pair of Go map
 // iteration orders is explored, the bytes must be identical.
 func ZZ_C04_NM_MapOrder() {
@@ -224,48 +251,50 @@ func ZZ_C04_NM_MapOrder_witness() {
 	zzsym.Assert(first == 1, "witness: iteration can start at the second key")
 }
 
-// ZZ_C04_NM_DecodeNoPanic: arbitrary bytes are accepted or rejected, never a panic; an accepted value lies in the buffer.
+// zzC04Decoder names one decoder under test; B_<name> in the spec is the buffer bound used for it.
+type zzC04Decoder struct {
+	name string
+	dec  func(*common.ZeroCopySource) error
+}
+
+func zzC04NMDecoders() []zzC04Decoder {
+	return []zzC04Decoder{
+		{"RegisterPeerParam", new(RegisterPeerParam).Deserialization},
+		{"PeerParam", new(PeerParam).Deserialization},
+		{"PeerListParam", new(PeerListParam).Deserialization},
+		{"UpdateConfigParam", new(UpdateConfigParam).Deserialization},
+		{"BlackListItem", new(BlackListItem).Deserialization},
+		{"PeerPoolItem", new(PeerPoolItem).Deserialization},
+		{"GovernanceView", new(GovernanceView).Deserialization},
+		{"Status", new(Status).Deserialization},
+		{"PeerPoolMap", new(PeerPoolMap).Deserialization},
+		{"ConsensusSigns", new(ConsensusSigns).Deserialization},
+	}
+}
+
+// ZZ_C04_NM_DecodeNoPanic: arbitrary bytes (any length up to B_<type>) are accepted or rejected, never a panic,
+// and the decoder never moves past the end of the buffer. ONLY >= 0 restricts the run to one decoder (tuning aid).
 func ZZ_C04_NM_DecodeNoPanic() {
-	B := zzsym.Param("B")
-	which := zzsym.Param("T")
-	if which < 0 {
-		which = zzsym.Choose("type", 10)
+	ds := zzC04NMDecoders()
+	i := zzsym.Param("ONLY")
+	if i < 0 {
+		i = zzsym.Choose("type", len(ds))
 	}
-	buf := zzsym.BytesUpTo("buf", B)
+	d := ds[i]
+	buf := zzsym.BytesUpTo("buf", zzsym.Param("B_"+d.name))
 	src := common.NewZeroCopySource(buf)
-	var err error
-	switch which {
-	case 0:
-		err = new(RegisterPeerParam).Deserialization(src)
-	case 1:
-		err = new(PeerParam).Deserialization(src)
-	case 2:
-		err = new(PeerListParam).Deserialization(src)
-	case 3:
-		err = new(UpdateConfigParam).Deserialization(src)
-	case 4:
-		err = new(BlackListItem).Deserialization(src)
-	case 5:
-		err = new(PeerPoolItem).Deserialization(src)
-	case 6:
-		err = new(GovernanceView).Deserialization(src)
-	case 7:
-		err = new(Status).Deserialization(src)
-	case 8:
-		err = new(PeerPoolMap).Deserialization(src)
-	case 9:
-		err = new(ConsensusSigns).Deserialization(src)
-	}
+	err := d.dec(src)
 	zzsym.Assert(src.Pos() <= uint64(len(buf)), "the decoder never reads past the buffer")
 	if err == nil {
-		zzsym.Cover("decoded")
+		zzsym.Cover("decoded-" + d.name)
 	} else {
-		zzsym.Cover("rejected")
+		zzsym.Cover("rejected-" + d.name)
 	}
 }
 
 func ZZ_C04_NM_DecodeNoPanic_witness() {
 	buf := zzsym.BytesUpTo("buf", 40)
-	err := new(PeerPoolMap).Deserialization(common.NewZeroCopySource(buf))
-	zzsym.Assert(err != nil || buf[0] != 1, "witness: some buffer decodes to a one-peer pool")
+	g := new(GovernanceView)
+	err := g.Deserialization(common.NewZeroCopySource(buf))
+	zzsym.Assert(err != nil || g.View != 7, "witness: some buffer decodes to a governance view with View 7")
 }
